@@ -463,7 +463,24 @@ func poolNewOf(p *core.Prog, g *ssa.Global, fn *ssa.Function) bool {
 
 // checkCopyEdge: value e reaches packet.data on an edge where NoCopy is false.
 func checkCopyEdge(c *core.Ctx, r *core.Rule, np *ssa.Function, pred *ssa.BasicBlock, e, dataParam ssa.Value, name string, guardConst *int64, poolGlobal **ssa.Global) {
+	checkCopyEdgeDst(c, r, np, pred, e, e, dataParam, name, guardConst, poolGlobal)
+}
+
+// checkCopyEdgeDst: e is the buffer on this edge; copyDst is the value the
+// copy(dst, data) call may name (e itself, or a phi merging e with the other buffer kind).
+func checkCopyEdgeDst(c *core.Ctx, r *core.Rule, np *ssa.Function, pred *ssa.BasicBlock, e, copyDst, dataParam ssa.Value, name string, guardConst *int64, poolGlobal **ssa.Global) {
 	p := c.P
+	if ph, ok := e.(*ssa.Phi); ok && e != dataParam {
+		// the two buffer kinds are merged before the copy: check each incoming buffer
+		for i, inner := range ph.Edges {
+			nm := "fresh"
+			if poolGetCall(sliceRoot(inner)) != nil {
+				nm = "pooled"
+			}
+			checkCopyEdgeDst(c, r, np, ph.Block().Preds[i], inner, ph, dataParam, nm, guardConst, poolGlobal)
+		}
+		return
+	}
 	key := "gopacket.NewPacket/copy-edge:" + name
 	site := p.Pos(np.Pos())
 	if len(pred.Instrs) > 0 {
@@ -522,9 +539,15 @@ func checkCopyEdge(c *core.Ctx, r *core.Rule, np *ssa.Function, pred *ssa.BasicB
 	// copy(e, data) dominates the edge
 	copied := false
 	core.Instrs(np, func(ins ssa.Instruction) {
-		if nm, cc := core.BuiltinCall(ins); nm == "copy" && cc.Args[0] == e && cc.Args[1] == dataParam {
+		if nm, cc := core.BuiltinCall(ins); nm == "copy" && (cc.Args[0] == e || cc.Args[0] == copyDst) && cc.Args[1] == dataParam {
 			if ins.Block() == pred || ins.Block().Dominates(pred) {
 				copied = true
+			}
+			// a copy into the merged buffer: it must lie on every path from the merge to the packet construction
+			if cc.Args[0] == copyDst && copyDst != e {
+				if ph, ok := copyDst.(*ssa.Phi); ok && (ins.Block() == ph.Block() || ph.Block().Dominates(ins.Block())) && storesDominatedBy(np, ins) {
+					copied = true
+				}
 			}
 		}
 	})
@@ -551,4 +574,36 @@ func constMakeLen(ins ssa.Instruction) (int64, bool) {
 		}
 	}
 	return 0, false
+}
+
+// storesDominatedBy: every store of the packet's data field in np is dominated by ins
+// or lies on a NoCopy edge (handled separately by the edge analysis: the stored value is a phi).
+func storesDominatedBy(np *ssa.Function, ins ssa.Instruction) bool {
+	ok := true
+	core.Instrs(np, func(i ssa.Instruction) {
+		st, isSt := i.(*ssa.Store)
+		if !isSt {
+			return
+		}
+		fa, isF := st.Addr.(*ssa.FieldAddr)
+		if !isF || core.FieldOfAddr(fa).Name() != "data" {
+			return
+		}
+		// the stored value mentions the copied buffer only through a phi whose other edge is the NoCopy input;
+		// the copy must dominate the phi's incoming edge block for the copied buffer
+		if ph, isPhi := st.Val.(*ssa.Phi); isPhi {
+			for k, e := range ph.Edges {
+				if _, isInner := e.(*ssa.Phi); isInner || e != nil {
+					pred := ph.Block().Preds[k]
+					cc := core.CallCommonOf(ins)
+					if cc != nil && len(cc.Args) > 0 && e == cc.Args[0] {
+						if !(ins.Block() == pred || ins.Block().Dominates(pred)) {
+							ok = false
+						}
+					}
+				}
+			}
+		}
+	})
+	return ok
 }
